@@ -7,7 +7,7 @@ T1 == "tbl1"
 K(a, b) == [h |-> S1(a), r |-> S1(b)]
 Keys == { K(a, b) : a \in HashBytes, b \in RangeBytes }
 VVals == { Num(1), Num(2) }
-MV == [t |-> "M", v |-> [a |-> Num(1)]]
+MV == Mk("M", [a |-> Num(1)])
 Items == { k @@ m : k \in Keys, m \in { <<>> } \cup { [v |-> x] : x \in VVals } \cup { [m |-> MV] } \cup { [v |-> x, m |-> MV] : x \in VVals } }
 
 Updates == {
